@@ -316,6 +316,116 @@ theorem C13_feature_assign (s : ASeq) (f : Feature) (st : Strand) (x : List Nat)
     intro l hl
     exact locSeq_fwd _ l (hst l (hperm.mem_iff.mp hl))
 
+/-! ## Assigning through a slice or a position; editing the annotation in place -/
+
+/-- `aseq[a:b] = v` (any of the four forms, inside the sequence, `len v` = width): no exception;
+annotation, start and length unchanged; the window holds `v`; every base outside is unchanged;
+and reading the same slice of the sequence gives `v` back. -/
+theorem C13_slice_assign (s : ASeq) (a b : Option Int) (v : List Nat) (lo hi : Int)
+    (hlo : lo = a.getD s.start) (hhi : hi = b.getD (s.start + s.seq.length))
+    (h1 : s.start ≤ lo) (h2 : lo ≤ hi) (h3 : hi ≤ s.start + s.seq.length)
+    (hv : v.length = (hi - lo).toNat) :
+    ∃ s', setSlice s a b v = .ok s' ∧ s'.annot = s.annot ∧ s'.start = s.start ∧
+      s'.seq.length = s.seq.length ∧
+      (∀ p, lo ≤ p → p < hi → s'.seq[(p - s.start).toNat]? = v[(p - lo).toNat]?) ∧
+      (∀ p, s.start ≤ p → (p < lo ∨ hi ≤ p) → s'.seq[(p - s.start).toNat]? = s.seq[(p - s.start).toNat]?) ∧
+      pySlice s'.seq (lo - s.start) (hi - s.start) = v := by
+  have e1 : lo - s.start = (((lo - s.start).toNat : Nat) : Int) := by omega
+  have e2 : hi - s.start = (((hi - s.start).toNat : Nat) : Int) := by omega
+  have hv' : v.length = (hi - s.start).toNat - (lo - s.start).toNat := by omega
+  have hassign := assignSlice_nat s.seq v (lo - s.start).toNat (hi - s.start).toNat (by omega) (by omega) hv'
+  have hj : (hi - s.start).toNat = (lo - s.start).toNat + v.length := by omega
+  have hbound : (lo - s.start).toNat + v.length ≤ s.seq.length := by omega
+  have hget := write_getElem? s.seq v (lo - s.start).toNat hbound
+  have hlen := write_length s.seq v (lo - s.start).toNat hbound
+  rw [← hj] at hget hlen
+  refine ⟨{ s with seq := s.seq.take (lo - s.start).toNat ++ v ++ s.seq.drop (hi - s.start).toNat }, ?_, rfl, rfl, hlen, ?_, ?_, ?_⟩
+  · have hA : (a.map (· - s.start)).getD 0 = lo - s.start := by
+      rw [hlo]; cases a <;> simp
+    have hB : (b.map (· - s.start)).getD (s.seq.length : Int) = hi - s.start := by
+      rw [hhi]; cases b <;> simp <;> omega
+    have hassign' : assignSlice s.seq (lo - s.start) (hi - s.start) v
+        = .ok (s.seq.take (lo - s.start).toNat ++ v ++ s.seq.drop (hi - s.start).toNat) := by
+      rw [e1, e2]; simp only [Int.toNat_natCast]; exact hassign
+    rw [setSlice_eq, hA, hB, hassign']
+  · intro p hp1 hp2
+    show (s.seq.take (lo - s.start).toNat ++ v ++ s.seq.drop (hi - s.start).toNat)[(p - s.start).toNat]? = _
+    rw [hget]
+    have : (lo - s.start).toNat ≤ (p - s.start).toNat ∧ (p - s.start).toNat < (hi - s.start).toNat := by omega
+    simp only [this, and_self, if_true]
+    congr 1; omega
+  · intro p hp hout
+    show (s.seq.take (lo - s.start).toNat ++ v ++ s.seq.drop (hi - s.start).toNat)[(p - s.start).toNat]? = _
+    rw [hget]
+    have : ¬ ((lo - s.start).toNat ≤ (p - s.start).toNat ∧ (p - s.start).toNat < (hi - s.start).toNat) := by omega
+    simp only [this, if_false]
+  · show pySlice (s.seq.take (lo - s.start).toNat ++ v ++ s.seq.drop (hi - s.start).toNat) _ _ = v
+    rw [e1, e2, pySlice_nat]
+    simp only [Int.toNat_natCast]
+    apply List.ext_getElem?
+    intro j
+    rw [List.getElem?_take, List.getElem?_drop, hget]
+    by_cases hjv : j < v.length
+    · have c1 : j < (hi - s.start).toNat - (lo - s.start).toNat := by omega
+      have c2 : (lo - s.start).toNat ≤ (lo - s.start).toNat + j ∧ (lo - s.start).toNat + j < (hi - s.start).toNat := by omega
+      simp only [c1, if_true, c2, and_self]
+      congr 1; omega
+    · have c1 : ¬ j < (hi - s.start).toNat - (lo - s.start).toNat := by omega
+      simp only [c1, if_false]
+      exact (List.getElem?_eq_none (by omega)).symm
+
+/-- `aseq[p] = c` inside the sequence: `aseq[p]` then reads `c`, every other position, the
+annotation and the start are unchanged. -/
+theorem C13_int_assign (s : ASeq) (p : Int) (c : Nat) (h1 : s.start ≤ p) (h2 : p < s.start + s.seq.length) :
+    ∃ s', setInt s p c = .ok s' ∧ s'.annot = s.annot ∧ s'.start = s.start ∧
+      getInt s' p = .ok c ∧
+      (∀ q, q ≠ p → s.start ≤ q → q < s.start + s.seq.length → getInt s' q = getInt s q) := by
+  have hn : ¬ (p - s.start < -(s.seq.length : Int) ∨ p - s.start ≥ (s.seq.length : Int)) := by omega
+  have h0 : ¬ (p - s.start < 0) := by omega
+  refine ⟨{ s with seq := s.seq.set (p - s.start).toNat c }, ?_, rfl, rfl, ?_, ?_⟩
+  · unfold setInt; simp only [hn, if_false, h0]
+  · unfold getInt
+    simp only [List.length_set, hn, if_false, h0, List.getElem?_set]
+    have : (p - s.start).toNat < s.seq.length := by omega
+    simp [this]
+  · intro q hq hq1 hq2
+    unfold getInt
+    have hnq : ¬ (q - s.start < -(s.seq.length : Int) ∨ q - s.start ≥ (s.seq.length : Int)) := by omega
+    have h0q : ¬ (q - s.start < 0) := by omega
+    simp only [List.length_set, hnq, if_false, h0q, List.getElem?_set]
+    have : ¬ (p - s.start).toNat = (q - s.start).toNat := by omega
+    simp only [this, if_false]
+
+/-- In-place edits of an annotation: an added feature is contained; deleting an absent feature
+is refused with `KeyError`; after a successful deletion the feature is no longer contained and
+every feature different from it is kept. -/
+theorem C13_annot_add_del (a : Annot) (f : Feature) :
+    annotHas (annotAdd a f) f = true ∧
+    (annotHas a f = false → annotDel a f = .error .keyError) ∧
+    (∀ a', annotDel a f = .ok a' → annotHas a' f = false ∧
+        ∀ g, Feature.same f g = false → (g ∈ a' ↔ g ∈ a)) := by
+  refine ⟨?_, ?_, ?_⟩
+  · unfold annotHas annotAdd
+    simp only [List.any_append, List.any_cons, List.any_nil, Bool.or_false, Feature.same_refl, Bool.or_true]
+  · intro h; unfold annotDel; simp [h]
+  · intro a' h
+    unfold annotDel at h
+    by_cases hh : annotHas a f = true
+    · simp only [hh, if_true, Except.ok.injEq] at h
+      subst h
+      constructor
+      · unfold annotHas
+        rw [Bool.eq_false_iff]
+        intro hany
+        rw [List.any_eq_true] at hany
+        obtain ⟨g, hg, hs⟩ := hany
+        rw [List.mem_filter] at hg
+        simp [hs] at hg
+      · intro g hg
+        rw [List.mem_filter]
+        simp [hg]
+    · simp [hh] at h
+
 /-! ## Reverse complement, copy -/
 
 /-- `reverse_complement` never raises on a well-formed annotated sequence, returns the
@@ -502,6 +612,14 @@ example : True := by
   trivial
 -- an accessor handing out the internal dictionary (seeded change C13-13) would let an edit through
 example : mutQualThrough .plain 9 ⟨0, 1, [exLoc]⟩ ≠ ⟨0, 1, [exLoc]⟩ := by decide
+-- slice / int assignment and annotation edits on concrete data
+example : (setSlice exSeq (some 6) (some 8) [3, 3]).toOption.map (·.seq) = some [0, 3, 3, 3, 0, 1, 2, 3, 0, 1] := by decide
+example : (setSlice exSeq none (some 7) [3, 3]).toOption.map (·.seq) = some [3, 3, 2, 3, 0, 1, 2, 3, 0, 1] := by decide
+example : setSlice exSeq (some 6) (some 8) [3, 3, 3] = .error .valueError := by decide
+example : (setInt exSeq 14 2).toOption.map (·.seq) = some [0, 1, 2, 3, 0, 1, 2, 3, 0, 2] := by decide
+example : annotDel exSeq.annot ⟨0, 0, [⟨11, 14, .fwd, Defect.none⟩, ⟨5, 8, .fwd, Defect.none⟩]⟩ = .ok [] := by decide
+example : annotDel exSeq.annot ⟨0, 0, [⟨5, 8, .fwd, Defect.none⟩]⟩ = .error .keyError := by decide
+example : annotRange exSeq.annot = (5, 15) ∧ annotCount (exSeq.annot ++ exSeq.annot) = 1 := by decide
 -- the heap copy is usable and fresh
 example : ((Heap.mk [[]] [[0, 1]]).copyObj copyKinds ⟨0, 0, 1⟩).map (·.2) = some ⟨1, 1, 1⟩ := by decide
 -- … and with the bound-method table of the unrepaired code there is no usable copy
